@@ -121,6 +121,17 @@ def dm_workload(res, ctx, rng):
             res.case(('dm-ph', combo, lp))
             decode(res, raw, strings.inverted(), f'placeholder segment with keys {sorted(p)}')
             res.count('placeholder_key_subsets')
+    # large structures: dozens of segments, deep backtraces, long token lists
+    for n in (20, 64, 300):
+        raw = logs.gen_event(rng, strings, ['bt'])
+        raw['dm'] = {'pc': n, 's': 2, 'seg': [logs.gen_segment(rng, strings) for _ in range(n)]}
+        raw['bt'] = [{'iu': rng.randbytes(16), 'io': rng.getrandbits(40)} for _ in range(n)]
+        for seg in raw['dm']['seg'][:3]:
+            if 'p' in seg:
+                seg['p']['t'] = [strings.idx(logs.rand_text(rng)) for _ in range(n)]
+        res.case(('dm-large', n))
+        decode(res, raw, strings.inverted(), f'decomposed message with {n} segments')
+        res.count('large_records')
     for _ in range(ctx.pick(300, 20000) // ctx.nshards):
         raw = logs.gen_event(rng, strings, ())
         raw['dm'] = logs.gen_dm(rng, strings)
